@@ -8,6 +8,7 @@ package main
 
 import (
 	"fmt"
+	"sync"
 	"time"
 
 	"github.com/crewjam/saml"
@@ -200,4 +201,83 @@ func spHistories(c *Ctx, g *Group) {
 		q.call("copy-other-idp-again", nil)
 		h.call("original-still-first-idp", nil)
 	}
+}
+
+// spConcurrent: one ServiceProvider value shared by goroutines that parse different messages at the same
+// time (a web server does exactly this). Every genuine message must come back as ITS OWN assertion and the
+// attacker's unsigned messages must be refused, whatever else is being parsed at that moment.
+func spConcurrent(c *Ctx) {
+	g := c.Group("spconc", nil, "bool", "check_bools")
+	cfg := defaultCfg()
+	now := baseNow
+	const workers, rounds = 8, 250
+	type msg struct {
+		bytes []byte
+		user  string
+		good  bool
+	}
+	var msgs [workers][2]msg
+	for w := 0; w < workers; w++ {
+		rs, as := validSpecs(cfg, now, fmt.Sprintf("conc%d", w))
+		as.NameID = fmt.Sprintf("user-%d", w)
+		a := buildAssertion(as)
+		SignInto(a, 0)
+		msgs[w][0] = msg{[]byte(buildResponse(rs, a).Render()), as.NameID, true}
+		rs2, as2 := validSpecs(cfg, now, fmt.Sprintf("evil%d", w))
+		as2.NameID = "mallory-as-admin"
+		msgs[w][1] = msg{[]byte(buildResponse(rs2, buildAssertion(as2)).Render()), as2.NameID, false}
+	}
+	var crossed, refused, admitted, panics int64
+	var first string
+	var mu sync.Mutex
+	note := func(cnt *int64, s string) {
+		mu.Lock()
+		*cnt++
+		if first == "" {
+			first = s
+		}
+		mu.Unlock()
+	}
+	withGlobals(cfg, now, func() {
+		spv := cfg.SP()
+		cur := mustURL(cfg.AcsURL)
+		var wg sync.WaitGroup
+		for w := 0; w < workers; w++ {
+			w := w
+			wg.Add(1)
+			go func() {
+				defer wg.Done()
+				for i := 0; i < rounds; i++ {
+					m := msgs[w][i%2]
+					func() {
+						defer func() {
+							if p := recover(); p != nil {
+								note(&panics, fmt.Sprint("panic: ", p))
+							}
+						}()
+						a, err := spv.ParseXMLResponse(m.bytes, []string{"req-1"}, cur)
+						switch {
+						case m.good && err != nil:
+							note(&refused, "a genuine message was refused while others were being parsed")
+						case m.good && (a.Subject == nil || a.Subject.NameID == nil || a.Subject.NameID.Value != m.user):
+							got := "?"
+							if a.Subject != nil && a.Subject.NameID != nil {
+								got = a.Subject.NameID.Value
+							}
+							note(&crossed, fmt.Sprintf("the login of %s came back as %s", m.user, got))
+						case !m.good && err == nil:
+							note(&admitted, "an unsigned message was accepted while others were being parsed")
+						}
+					}()
+				}
+			}()
+		}
+		wg.Wait()
+	})
+	ok := crossed+refused+admitted+panics == 0
+	c.Count("class/concurrent-parses")
+	c.Add(g, &Case{Key: map[string]string{"class": "concurrent-parses", "workers": fmt.Sprint(workers)},
+		Input: map[string]any{"workers": workers, "rounds_each": rounds, "messages": "per worker: its own IdP-signed assertion, and an unsigned one naming mallory-as-admin"},
+		Obs:   map[string]any{"crossed": crossed, "genuine_refused": refused, "unsigned_admitted": admitted, "panics": panics, "first": first},
+		Term:  fmt.Sprint(ok), ImplSpecOK: Bptr(ok), Dedup: "concurrent-parses"})
 }
